@@ -857,6 +857,23 @@ def _c18_case(col, rng, cidx, tmpdir, jobref=None):
 
     sp = gen_shape(rng, nmin=3, nmax=7, flags=False, reuse=True, mc_max=3, const_objects=0.0)  # (cached values must be picklable)
     sp["is_async"] = rng.random() < 0.3
+    if rng.random() < 0.35:
+        # results that are ONE object (a function that validates its input and hands it on) and consumers that get both: what is
+        # one object in the caching run is one object again after the restart
+        indexed = {a[1] for m in sp["nodes"] for a in list(m["args"]) + list(m["kwargs"].values()) + ([m["active"]] if m.get("active") else [])
+                   if a[0] == "n" and a[2]}
+        indexed |= {a[1] for a in sp["ret"][1] if a[0] == "n" and a[2]}
+        for fn in sorted(sp["fns"]):
+            fs = sp["fns"][fn]
+            sites = [i for i, nd in enumerate(sp["nodes"]) if nd["fn"] == fn]
+            if fs.get("shape") is not None or any(i in indexed for i in sites):
+                continue
+            deps = [a[1] for i in sites for a in list(sp["nodes"][i]["args"]) + list(sp["nodes"][i]["kwargs"].values()) if a[0] == "n" and not a[2]]
+            if any(sp["fns"][sp["nodes"][q]["fn"]].get("shape") in (["handle"], ["same"]) for q in deps) and rng.random() < 0.6:
+                fs["shape"] = ["same"]
+            elif rng.random() < 0.4:
+                fs["shape"] = ["handle"]
+        col.counters["c18_cases_with_results_that_are_one_object"] += 1
     dflt18 = rng.random() < 0.3
     if dflt18:
         sp["defaults"] = {"x": "default-of-x"}  # the DAG input has a default: a restart may be called without it
